@@ -23,9 +23,11 @@ pub fn c10_meta(tier: Tier) -> Meta {
             "Model-based: a history is a sequence of planning requests (length, direction) applied to ONE planner; the model says every returned transform must be a correct DFT of its own length and direction whatever came before. \
              Bounded-exhaustive: for each of {targets}+ target lengths up to {tmax} (highly composite 11-smooth lengths, p*2^k with Rader/Bluestein primes, a few fixed ones) a pool of <= 8 RELATED requests is derived from the target's own fresh plan via the plan-report hook (every stage of its AVX radix chain / every sub-recipe of its scalar or SSE recipe, Rader/Bluestein inner lengths, multiples of the target, and two opposite-direction requests), and ALL sequences of length <= 3 over the pool are run on the Scalar, Sse and Avx planners, f32 and f64. \
              Pairs: every (M, p) with p prime <= 400 (quick) / 2048 (thorough) and M = 2^a*3^b in [p,12p]: the history [M, p, p'] (a cached M is a candidate Bluestein inner length when M >= 2p-1, and must NOT be taken for one when it is shorter). \
+             Neighbour histories: [p-1, p], [(p-1)/2, p-1, p], [p, 2p, 2p+1], [p-1, p, 2p] for every prime p in 37..=600 (quick) / 4000 (thorough). \
+             Plan lifetime: histories in which the caller DROPS every returned transform before the next request (repeats, both directions, halves/doubles/quadruples of landmark sizes from 1000 up to 2^21 (quick) / 2^23 (thorough), and a third as many random histories), each transform judged against the analytic DFT column of a unit impulse (and a dense vector up to 2^16). \
              Window-fill: proptest-drawn histories of 2-5 requests with lengths inside [p, 4p] (candidate inner lengths and lengths just too short to be one) followed by a Bluestein prime p and a multiple of it. \
              Random: {cases} proptest-drawn histories of length 1..12 over the divisor lattices of 5040*{{1,11,13,59,251}} and 2^a*3^b lengths (Bluestein inner sizes), all four planners. \
-             Oracle for EVERY transform returned in a history: len()/fft_direction(); C02 bound on a dense vector and C01 tolerance on an impulse against the reference DFT, through a rotating entry point with exactly the advertised scratch; C06 round trip whenever both directions of a length were returned; all of it after the planner has been dropped; and a twin planner fed the same history must return transforms with bit-identical outputs. \
+             Oracle for EVERY transform returned in a history: len()/fft_direction(); C02 bound on a dense vector and C01 tolerance on an impulse against the reference DFT, through a rotating entry point with exactly the advertised scratch (the last request of a history, and every request of a history of <= 3, through ALL four entry points); C06 round trip whenever both directions of a length were returned; all of it after the planner has been dropped; and a twin planner fed the same history must return transforms with bit-identical outputs. \
              Non-trivial: the history contains a request that the planner splices onto something an earlier request built (AVX: plan shows CacheBase(b), b < n; scalar/SSE: a sub-recipe length built earlier in that direction), as reported by the plan-report hook just before the request.",
         ),
         exhaustive: true,
@@ -167,6 +169,76 @@ pub fn c10_worker(ctx: &mut Ctx) {
                 let dir = DIRS[(q / 4) % 2];
                 let reqs = vec![Req { n: m, dir }, Req { n: q, dir }, Req { n: q, dir: dir.other() }];
                 ctx.exec(&Case::new("C10", "history", planner, ty, dir, q).with_source(Source::History { reqs, pick: 3 }).with_input(InputSpec::fam("uniform", (q * 31 + m) as u64)));
+                // M close above the smallest admissible inner length: then multiples of p (radix steps on top of the Bluestein
+                // base lend buffers to it) straight after M, on every planner
+                if m >= 2 * q - 1 && m <= 3 * q {
+                    for (xi, mult) in [10usize, 2, 5].iter().enumerate() {
+                        let planner = [Planner::Avx, Planner::Scalar, Planner::Sse][(q + m + xi) % 3];
+                        let reqs = vec![Req { n: m, dir }, Req { n: q * mult, dir }];
+                        ctx.exec(&Case::new("C10", "history", planner, TYS[(q + xi) % 2], dir, q * mult).with_source(Source::History { reqs, pick: 2 }).with_input(InputSpec::fam("uniform", (q * 17 + m + xi) as u64)));
+                    }
+                }
+            }
+            if ctx.done() {
+                return;
+            }
+        }
+    }
+    // neighbour histories: lengths that share NO factor but are related through Rader (p-1) and Bluestein/Cunningham steps:
+    // [p-1, p], [(p-1)/2, p-1, p], [p, 2p, 2p+1], [p-1, p, 2p] for every prime p up to 600 (quick) / 4000 (thorough)
+    {
+        let pmax = ctx.tier.pick(600usize, 4000);
+        for q in 37..=pmax {
+            if !crate::gen::is_prime(q as u64) {
+                continue;
+            }
+            if !ctx.mine() {
+                continue;
+            }
+            let dir = DIRS[(q / 2) % 2];
+            let seqs: [Vec<usize>; 4] = [vec![q - 1, q], vec![(q - 1) / 2, q - 1, q], vec![q, 2 * q, 2 * q + 1], vec![q - 1, q, 2 * q]];
+            for (si, seq) in seqs.iter().enumerate() {
+                let planner = [Planner::Scalar, Planner::Sse, Planner::Avx][(q + si) % 3];
+                let ty = TYS[(q / 4 + si) % 2];
+                let reqs: Vec<Req> = seq.iter().map(|&n| Req { n, dir }).collect();
+                let len = reqs.len();
+                ctx.exec(&Case::new("C10", "history", planner, ty, dir, q).with_source(Source::History { reqs, pick: len }).with_input(InputSpec::fam("uniform", (q * 13 + si) as u64)));
+            }
+            if ctx.done() {
+                return;
+            }
+        }
+    }
+    // caller drops every transform before the next request ("planlife"): repeats and radix-chain neighbours of landmark sizes
+    // up to 2^21 (quick) / 2^23 (thorough), where a cache that only borrows what callers keep alive would lose its entries
+    {
+        let mut marks: Vec<usize> = vec![1000, 4096, 7 * 512, 59 * 16, 65536, 3 * 32768, 5 << 14, 131072, 100003, 5 << 18, 1 << 20, (1 << 20) + 7, 3 << 19, 1 << 21];
+        if ctx.tier == Tier::Thorough {
+            marks.extend([5usize << 19, 1 << 22, 3 << 21, 1 << 23, 7 << 18, 1048583 * 2]);
+        }
+        for (mi, &l) in marks.iter().enumerate() {
+            for planner in [Planner::Scalar, Planner::Sse, Planner::Avx] {
+                if !ctx.mine() {
+                    continue;
+                }
+                // scalar/SSE planning of multi-million lengths is slow; keep them to the smaller marks
+                if planner != Planner::Avx && l > 1 << 21 {
+                    continue;
+                }
+                let ty = if l > 1 << 21 { Ty::F32 } else { TYS[(mi + planner as usize) % 2] };
+                let d = DIRS[mi % 2];
+                let hs: [Vec<Req>; 3] = [
+                    vec![Req { n: l, dir: d }, Req { n: l, dir: d }, Req { n: l, dir: d.other() }, Req { n: l, dir: d }],
+                    vec![Req { n: l, dir: d }, Req { n: 2 * l, dir: d }, Req { n: l / 2, dir: d }, Req { n: l, dir: d }],
+                    vec![Req { n: l / 4, dir: d }, Req { n: l, dir: d }, Req { n: 4 * l, dir: d }, Req { n: l, dir: d }],
+                ];
+                for (hi, reqs) in hs.iter().enumerate() {
+                    if reqs.iter().any(|r| r.n > ctx.tier.pick(1usize << 22, 1 << 24)) {
+                        continue;
+                    }
+                    let len = reqs.len();
+                    ctx.exec(&Case::new("C10", "planlife", planner, ty, d, l).with_source(Source::History { reqs: reqs.clone(), pick: len }).with_input(InputSpec::fam("uniform", (mi * 3 + hi) as u64)));
+                }
             }
             if ctx.done() {
                 return;
@@ -204,14 +276,20 @@ pub fn c10_worker(ctx: &mut Ctx) {
         let n = reqs.last().unwrap().n;
         Case::new("C10", "history", PLANNERS[pl], TYS[ty], Dir::Fwd, n).with_source(Source::History { reqs, pick: len }).with_input(InputSpec::fam("uniform", seed))
     });
-    ctx.run_random("random-histories", cases / ctx.nshards as u32, strat);
+    ctx.run_random("random-histories", cases / ctx.nshards as u32, strat.clone());
+    // the same kind of histories with every transform dropped by the caller before the next request
+    let strat_drop = strat.prop_map(|mut c| {
+        c.kind = "planlife".into();
+        c
+    });
+    ctx.run_random("random-histories-dropped", cases / 3 / ctx.nshards as u32, strat_drop);
     // window-fill histories: several earlier requests whose lengths are all CANDIDATE inner lengths of a later Bluestein
     // request (any length in [2p-1, 4p]), then the prime itself and a multiple; the twin-planner comparison inside the
     // oracle makes any dependence on per-instance state (e.g. hash-map iteration order) visible
     let fams = Families::new(2048);
     let blue: Vec<usize> = fams.fams.iter().find(|f| f.0 == "prime_bluestein").map(|f| f.1.clone()).unwrap_or_default();
     let nb = blue.len().max(1);
-    let strat2 = (0..nb, proptest::collection::vec(any::<u16>(), 2..=5), 0..4usize, 0..2usize, 0..2usize, 1..=4usize, any::<u64>()).prop_map(move |(bi, fills, pl, ty, dir, mult, seed)| {
+    let strat2 = (0..nb, proptest::collection::vec(any::<u16>(), 2..=5), 0..4usize, 0..2usize, 0..2usize, prop_oneof![3 => 1..=4usize, 1 => Just(10usize), 1 => Just(6usize), 1 => Just(5usize)], any::<u64>()).prop_map(move |(bi, fills, pl, ty, dir, mult, seed)| {
         let p = blue[bi % blue.len()];
         let lo = p;
         let span = 3 * p + 2;
